@@ -330,6 +330,9 @@ def _term_params(tier):
     for d in DECODERS:
         for n in ([0, 6, 12] if tier == "quick" else [0, 3, 6, 9, 12, 16]):
             out.append(dict(dec=d, n=n, ptype=None))
+    # the verification trailer starts with an 8-octet signature: lengths that end inside / right after the next command header
+    for n in ([9, 10, 11, 13] if tier == "quick" else [8, 9, 10, 11, 13, 14, 15, 17, 18, 19]):
+        out.append(dict(dec="vt", n=n, ptype=None))
     for pt in (0, 2, 3, 11, 12, 13, 14, 15):
         for n in ([20, 28] if tier == "quick" else [16, 20, 24, 28, 32, 36]):
             out.append(dict(dec="pdu", n=n, ptype=pt))
